@@ -1132,10 +1132,10 @@ def x3(prog, tier="quick"):
             for g, (s, e_, ops) in zip(got, entries):
                 n = len(ops.items)
                 atoms = [o.atom for o in ops.items]
-                r = ev.call(w_len, Obj("op"), [g.copy_value()])
+                r = ev.call(w_len, _op(ev, w_len), [g.copy_value()])
                 if cst(r)[0] != n or cst(r)[2] != 0:
                     findings.append({"key": "X3:length", "where": "libzwerg/" + w_len["l"], "msg": "`length` of a location expression with %d operations yields %s" % (n, cst(r)[0]), "detail": None})
-                r = ev.call(w_addr, Obj("op"), [g.copy_value()])
+                r = ev.call(w_addr, _op(ev, w_addr), [g.copy_value()])
                 runs = [(x.start, x.length) for x in fld(r, "cov").items] if hasattr(r, "cov") else None
                 if runs is None:
                     cov = [v for v in vars(r).values() if isinstance(v, Vec)]
@@ -1144,7 +1144,7 @@ def x3(prog, tier="quick"):
                 if runs != exp:
                     findings.append({"key": "X3:address", "where": "libzwerg/" + w_addr["l"], "msg": "`address` of the element %#x..%#x yields the runs %s" % (s, e_, runs), "detail": None})
                 for wf, fwd, nm in ((w_elem, True, "elem"), (w_relem, False, "relem")):
-                    p = ev.call(wf, Obj("op"), [g.copy_value()])
+                    p = ev.call(wf, _op(ev, wf), [g.copy_value()])
                     outs = []
                     for _ in range(n + 2):
                         v = ev.call(ep_next, p, [])
@@ -1160,10 +1160,10 @@ def x3(prog, tier="quick"):
                         findings.append({"key": "X3:" + nm, "where": "libzwerg/" + ep_next["l"], "msg": "`elem` numbers the operations %s instead of 0, 1, 2, ..." % [fld(v, "m_pos") for v in outs], "detail": None})
                     if fwd:
                         for v, o in zip(outs, ops.items):
-                            r = ev.call(w_off, Obj("op"), [v.copy_value()])
+                            r = ev.call(w_off, _op(ev, w_off), [v.copy_value()])
                             if cst(r)[0] != o.offset or cst(r)[1] != "offset-dom":
                                 findings.append({"key": "X3:offset", "where": "libzwerg/" + w_off["l"], "msg": "`offset` of an operation stored at %#x yields %s (%s)" % (o.offset, cst(r)[0], cst(r)[1]), "detail": None})
-                            r = ev.call(w_lab, Obj("op"), [v.copy_value()])
+                            r = ev.call(w_lab, _op(ev, w_lab), [v.copy_value()])
                             if cst(r)[0] != o.atom or cst(r)[1] != "opcode-dom":
                                 findings.append({"key": "X3:label", "where": "libzwerg/" + w_lab["l"], "msg": "`label` of an operation with opcode %#x yields %s (%s)" % (o.atom, cst(r)[0], cst(r)[1]), "detail": None})
                             for code in (o.atom, 0x9f, 0x11):
@@ -1520,10 +1520,10 @@ def x4(prog):
                     report("X4:abbrev-entry", pe_next, "`entry` on %s numbers its results %s" % (what, [getattr(g, "m_pos", None) for g in got]))
                 for g, ab in zip(got, abbrevs):
                     for f_, exp, nm in ((w_code, (ab.code, "code-dom", 0), "code"), (w_label, (ab.tag, "tag-dom", 0), "label"), (w_off, (ab.off, "offset-dom", 0), "offset")):
-                        r = ev.call(f_, Obj("op"), [g.copy_value()])
+                        r = ev.call(f_, _op(ev, f_), [g.copy_value()])
                         if cst(r) != exp:
                             report("X4:" + nm, f_, "`%s` of abbreviation %d yields %s (domain %s); stored is %s" % (nm, ab.code, cst(r)[0], cst(r)[1], exp[0]))
-                    if pr(ev.call(w_kids, Obj("op"), [g])) != ("yes" if ab.kids else "no"):
+                    if pr(ev.call(w_kids, _op(ev, w_kids), [g])) != ("yes" if ab.kids else "no"):
                         report("X4:?haschildren", w_kids, "`?haschildren` answers wrongly for an abbreviation whose children flag is %s" % ab.kids)
                     ap = ev.construct(pa_ctor, Obj("(anonymous namespace)::producer_attribute_abbrev"), [g.copy_value()])
                     outs = []
@@ -1539,7 +1539,7 @@ def x4(prog):
                             ab.attrs, trip, [getattr(v, "m_pos", None) for v in outs]))
                     for v, (n_, f2, o2) in zip(outs, ab.attrs):
                         for fw, exp, nm in ((wa_label, (n_, "attr-dom", 0), "label"), (wa_form, (f2, "form-dom", 0), "form"), (wa_off, (o2, "offset-dom", 0), "offset")):
-                            r = ev.call(fw, Obj("op"), [v.copy_value()])
+                            r = ev.call(fw, _op(ev, fw), [v.copy_value()])
                             if cst(r) != exp:
                                 report("X4:attr-" + nm, fw, "`%s` of an abbreviation attribute yields %s (domain %s); stored is %s" % (nm, cst(r)[0], cst(r)[1], exp[0]))
                     for code in {a_[0] for a_ in ab.attrs} | {0x03, 0x49}:
@@ -1553,3 +1553,15 @@ def x4(prog):
     for k in ("abbrev-entry", "code", "label", "offset", "?haschildren", "attribute", "attr-label", "attr-form", "attr-offset", "?AT_x"):
         inst.append(("X4:" + k, {"evaluations": n_eval}))
     return inst, findings
+
+
+_OPS = {}
+
+
+def _op(ev, f):
+    """the operator object a word's operate()/result() runs on: one per word and evaluator, reused for every input, as a compiled
+    query reuses it for every stack (state kept in a data member would make later answers depend on earlier inputs)"""
+    k = (id(ev), f["fid"])
+    if k not in _OPS:
+        _OPS[k] = ev.new_object(f.get("cls") or "op")
+    return _OPS[k]
